@@ -350,7 +350,7 @@ def search_c10(rng, n, S=None, kinds=None):
             S.check(cc.shape == (len(faces[ax]) - 1,) and np.allclose(cc, 0.5 * (faces[ax][1:] + faces[ax][:-1]), rtol=0, atol=1e-9 * sc), f"C10:centres:{kind}", "centres not midway", inp, cc.tolist(), None)
             exp = np.hstack([faces[ax][1] - faces[ax][0], np.diff(faces[ax]), faces[ax][-1] - faces[ax][-2]])
             S.check(cs.shape == exp.shape and np.allclose(cs, exp, rtol=0, atol=1e-9 * sc) and np.all(cs > 0), f"C10:sizes:{kind}", "cell sizes != face differences (ghosts repeating end cells)", inp, cs.tolist(), exp.tolist())
-        V = np.asarray(m.cellvolume, dtype=float)
+        V = np.array(m.cellvolume, dtype=float)          # a copy: the array handed out is edited below
         G = geometric_volumes(mc)
         okv = V.shape == G.shape and np.allclose(V, G, rtol=1e-9, atol=0)
         if not okv and kind == "sph3" and V.shape == G.shape and np.allclose(V, sph3_as_coded(mc), rtol=1e-9, atol=0):
